@@ -366,6 +366,41 @@ Definition display_eqb (x y : display) : bool :=
   | _, _ => false
   end.
 
+(* mirror antisymmetry judged on an observed display table: the row of the mirrored Display is the row of the
+   Display with every sign negated and nothing else changed *)
+Definition row_of (tbl : list display_row) (d : display) : option display_row :=
+  find (fun r => display_eqb (fst (fst r)) d) tbl.
+Definition neg_row (r : display_row) : (Z * Z * comparison) * (bool * bool * bool * Z) :=
+  let '(_, (zb, ze, c), (mb, me, mc, s)) := r in ((- zb, - ze, c), (mb, me, mc, - s))%Z.
+Definition pat_eqb (x y : (Z * Z * comparison) * (bool * bool * bool * Z)) : bool :=
+  let '((zb, ze, c), (mb, me, mc, s)) := x in
+  let '((zb', ze', c'), (mb', me', mc', s')) := y in
+  Z.eqb zb zb' && Z.eqb ze ze' && cmp_eqb c c' && Bool.eqb mb mb' && Bool.eqb me me' && Bool.eqb mc mc' && Z.eqb s s'.
+Definition mirror_table_ok (tbl : list display_row) : bool :=
+  forallb (fun d => match row_of tbl d, row_of tbl (mirror_display d) with
+                    | Some r, Some r' => pat_eqb (neg_row r) (snd (fst r'), snd r')
+                    | _, _ => false
+                    end) all_displays.
+
+(* the probe domain of the node table, in the order the harness enumerates it *)
+Definition dom_types : list ntype := [NTAbsent; NTOther; NTExt; NTFragment; NTNickname; NTGeneric; NTUnspecified].
+Definition dom_elem : list (option Z) := [None; Some 8; Some 119]%Z.
+Definition dom_iso : list (option Z) := [None; Some 13]%Z.
+Definition dom_charge : list (option Z) := [None; Some (-1)]%Z.
+Definition dom_rad : list radical := [RadAbsent; RadDoublet; RadSinglet; RadOther].
+Definition dom_numh : list (option Z) := [None; Some 0; Some 2]%Z.
+Definition dom_anum : list (option string) := [None; Some "7"].
+Definition dom_ext : list (option string) := [None; Some "3"].
+Definition dom_extra : list (option string * option string) := [(None, None); (Some "R", Some "Ar")].
+Definition node_domain : list xnode :=
+  flat_map (fun t => flat_map (fun e => flat_map (fun i => flat_map (fun q => flat_map (fun r => flat_map (fun h =>
+  flat_map (fun an => flat_map (fun ex => map (fun gx => mkNode "1" t e i q r h an ex (fst gx) (snd gx) [])
+  dom_extra) dom_ext) dom_anum) dom_numh) dom_rad) dom_charge) dom_iso) dom_elem) dom_types.
+Definition dom_order : list xorder :=
+  [OAbsent; OInt 0; OInt 1; OInt 2; OInt 3; OInt 4; OInt 5; OInt 6; OInt 7; OInt 10; OInt 11; OInt 20; OInt 21; OInt 98;
+   OInt 99; OInt 100; OInt 101; OInt (-1); OOneHalf; OBad; OBad; OBad]%Z.
+Definition bond_domain : list (xorder * display) := flat_map (fun o => map (fun d => (o, d)) all_displays) dom_order.
+
 (* ------------------------------------------------------------------ _cdxml_3dify_ : geometry *)
 Section Geometry.
 Context {F : Type} (o : Fops F).
@@ -433,8 +468,28 @@ Definition ring_moves (sgn : F) (a1 a2 : nat) (side1 side2 : list (list nat)) : 
 Definition flat_moves (sgn2 : F) (a1 a2 : nat) (side1 side2 : list (list nat)) : list (list nat * vec) :=
   let d := vscale o (sgn2 / fofZ o 2) ez in
   ([a1; a2], d) :: map (fun l => (l, d)) (side1 ++ side2).
+
+(* one stereo bond as the parser decides it: the branch taken (a function of the CONSTITUTION and of which end is
+   a1: unchanged when the drawing is mirrored) and the sign (+1 wedge / bold, -1 hash).
+   KAcyc carries (s, c) = (sin, cos) of +90 or +60 degrees; the code uses angle = sign * that. *)
+Inductive ckind :=
+| KAcyc (sel : list nat) (i1 i2 : nat) (s c : F) (normal : vec) (nn : F) (ov : vec) (nax : F)
+| KRing (a1 a2 : nat) (side1 side2 : list (list nat))
+| KFlat (a1 a2 : nat) (side1 side2 : list (list nat)).
+Definition code_step (sgn : F) (k : ckind) : step :=
+  match k with
+  | KAcyc sel i1 i2 s c normal nn ov nax => SAcyc sel i1 i2 (sgn * s) c normal nn ov nax
+  | KRing a1 a2 s1 s2 => SShift (ring_moves sgn a1 a2 s1 s2)
+  | KFlat a1 a2 s1 s2 => SShift (flat_moves (sgn * fofZ o 2) a1 a2 s1 s2)
+  end.
+Definition plan := list (F * ckind).
+Definition run_plan (X : list vec) (p : plan) : list vec := run_steps X (map (fun q => code_step (fst q) (snd q)) p).
+(* the same drawing with every wedge <-> hash swapped: display_action negates the sign, nothing else *)
+Definition mirror_plan (p : plan) : plan := map (fun q => (fopp o (fst q), snd q)) p.
 End Geometry.
 Arguments SAcyc {F}. Arguments SShift {F}.
+Arguments KAcyc {F}. Arguments KRing {F}. Arguments KFlat {F}.
+Arguments step F : clear implicits. Arguments ckind F : clear implicits. Arguments plan F : clear implicits.
 
 (* ------------------------------------------------------------------ label -> fragment, and the cache *)
 (* a fragment / a label on the page: its position() *)
